@@ -243,9 +243,151 @@ def showMacro (cs : List C) : Except Fail (Circ Float) × Nat → String
   | (.ok _, k) => s!"ok evaluated {evaluated cs k}"
   | (.error f, k) => s!"{showFailB f} evaluated {evaluated cs k}"
 
+/-! ### the QuState level: one trait method called directly on a representation -/
+
+inductive QsCall where
+  | applyGate (bits : List Nat) (g : GateTerm Float)
+  | unaryAll (g : GateTerm Float)
+  | applyCond (control : List Bool) (bits : List Nat) (g : GateTerm Float)
+  | measureInto (q c : Nat) | peekInto (q c : Nat)
+  | measureAllInto (cbits : List Nat) | peekAllInto (cbits : List Nat)
+  | reset (q : Nat) | resetAll
+
+def parseQs : List String → Option QsCall
+  | "apply_gate" :: r => do
+      let (bits, r1) ← takeList r
+      let (g, r2) ← parseGate r1
+      if r2 ≠ [] then none
+      pure (.applyGate bits g)
+  | "apply_unary_gate_all" :: r => do
+      let (g, r2) ← parseGate r
+      if r2 ≠ [] then none
+      pure (.unaryAll g)
+  | "apply_conditional_gate" :: r => do
+      let (ctl, r1) ← takeList r
+      let (bits, r2) ← takeList r1
+      let (g, r3) ← parseGate r2
+      if r3 ≠ [] then none
+      pure (.applyCond (ctl.map (· != 0)) bits g)
+  | ["measure_into", q, c] => do pure (.measureInto (← q.toNat?) (← c.toNat?))
+  | ["peek_into", q, c] => do pure (.peekInto (← q.toNat?) (← c.toNat?))
+  | "measure_all_into" :: r => do
+      let (l, r1) ← takeList r
+      if r1 ≠ [] then none
+      pure (.measureAllInto l)
+  | "peek_all_into" :: r => do
+      let (l, r1) ← takeList r
+      if r1 ≠ [] then none
+      pure (.peekAllInto l)
+  | ["reset", q] => q.toNat?.map .reset
+  | ["reset_all"] => some .resetAll
+  | _ => none
+
+/-- the call on a backend: new state and register -/
+def qsProg {S : Type} (B : Backend CFloat Float S) (st : S) (reg : List Nat) : QsCall → Prog CFloat (S × List Nat)
+  | .applyGate bits g => (B.applyGate st g bits).bind fun s' => .pure (s', reg)
+  | .unaryAll g => (B.applyUnaryAll st g).bind fun s' => .pure (s', reg)
+  | .applyCond control bits g => (B.applyConditional st control g bits).bind fun s' => .pure (s', reg)
+  | .measureInto q c => B.measureInto st q c reg
+  | .peekInto q c => (B.peekInto st q c reg).bind fun r => .pure (st, r)
+  | .measureAllInto cbits => B.measureAllInto st cbits reg
+  | .peekAllInto cbits => B.peekAllInto st cbits reg
+  | .reset q => (B.reset st q).bind fun s' => .pure (s', reg)
+  | .resetAll => .pure (B.resetAll st, reg)
+
+/-- a qubit index outside the register in a call that does not validate it (`apply_gate`, `apply_conditional_gate`,
+`reset` of `trait QuState`; `Circuit` never passes one) -/
+def QsCall.qubitOob (n : Nat) : QsCall → Bool
+  | .applyGate bits _ | .applyCond _ bits _ => bits.any (n ≤ ·)
+  | .reset q => n ≤ q
+  | _ => false
+
+def QsCall.dupQubits : QsCall → Bool
+  | .applyGate bits _ | .applyCond _ bits _ => WellFormed.hasDup bits
+  | _ => false
+
+/-- the model has `nr_shots` in the state but the snapshot does not carry it: it is the sum of the ranges -/
+def qsAnswer (call : QsCall) (snap reg draws : List String) : String :=
+  match nats? reg, parseDraws draws with
+  | some reg, some ds =>
+    match parseVecSnapshot 0 snap with
+    | some st0 =>
+      let st := { st0 with nrShots := st0.counts.foldl (· + ·) 0 }
+      match runLenient (qsProg (vecBackend (α := CFloat) (P := Float)) st reg call) ds with
+      | .error msg => s!"draw-mismatch {msg}"
+      | .ok (.error (.panic _), _) =>
+        if call.dupQubits && st.counts.length % 2 == 0 then "panic-or-garbage" else "panic"
+      | .ok (.error f, _) => showFail f
+      | .ok (.ok (st', reg'), rest) =>
+        if !rest.isEmpty then "draw-mismatch impl-made-more-draws-than-model"
+        else s!"ok | {showVecSnapshot st'} | {joinNats reg'}"
+    | none =>
+      match parseStabSnapshot 0 snap with
+      | some st0 =>
+        let st := { st0 with nrShots := st0.counts.foldl (· + ·) 0 }
+        -- the tableau is one flat bit array: an unvalidated qubit index >= n reads and writes the cells of the NEXT row
+        -- (or the padding) instead of failing; the list-of-rows tableau model stops there
+        if call.qubitOob st.nrBits then "oob-unmodelled" else
+        match runLenient (qsProg stabBF st reg call) ds with
+        | .error msg => s!"draw-mismatch {msg}"
+        | .ok (.error (.err (.invalidNrBits 987654321 987654321)), _) => "panic"
+        | .ok (.error f, _) => showFail f
+        | .ok (.ok (st', reg'), rest) =>
+          if !rest.isEmpty then "draw-mismatch impl-made-more-draws-than-model"
+          else s!"ok | {showStabSnapshot st'} | {joinNats reg'}"
+      | none => "unsupported-snapshot"
+  | _, _ => "bad-qs"
+
+/-- class tag of a QuState-level failure: the malformation of the call, in the vocabulary of `WellFormed` -/
+def qsTag (what : String) (n shots regLen : Nat) (call : QsCall) : String :=
+  let arity (g : GateTerm Float) (bits : List Nat) : Option String :=
+    if bits.any (n ≤ ·) then some "qubit-out-of-range"
+    else if WellFormed.hasDup bits then some "dup-qubits"
+    else if Gate.nrBits g ≠ bits.length then some "arity"
+    else if !WellFormed.gateOK g then some "bad-composite" else none
+  let cause : Option String := match call with
+    | .applyGate bits g => arity g bits
+    | .unaryAll g => if Gate.nrBits g ≠ 1 then some "arity" else none
+    | .applyCond control bits g => (arity g bits).orElse fun _ => if control.length ≠ shots then some "control-length" else none
+    | .measureInto q c | .peekInto q c =>
+      if n ≤ q then some "qubit-out-of-range" else if 64 ≤ c then some "cbit-ge-64"
+      else if regLen < shots then some "register-too-short" else none
+    | .measureAllInto cbits | .peekAllInto cbits =>
+      if cbits.length ≠ n then some "measure-all-len" else if cbits.any (64 ≤ ·) then some "cbit-ge-64"
+      else if regLen < shots then some "register-too-short" else none
+    | .reset q => if n ≤ q then some "qubit-out-of-range" else none
+    | .resetAll => none
+  match cause with
+  | some c => s!"{what}:{c}"
+  | none => if shots = 0 then s!"{what}:zero-shots" else s!"{what}:wellformed-call"
+
+def specQPair (sizes call : List String) (rest : List (List String)) : String :=
+  match sizes, parseQs call, rest with
+  | [_, n, shots, regLen], some qc, [v, s, v2, s2] =>
+    match n.toNat?, shots.toNat?, regLen.toNat? with
+    | some n, some shots, some regLen =>
+      let kind (f : List String) : String := f.getD 1 "?"
+      let ctor (f : List String) : String := if kind f = "err" then f.getD 2 "" else ""
+      if kind v = "panic" || kind s = "panic" then
+        s!"fail {qsTag "exec-panic" n shots regLen qc} QuState call panics: vector={kind v} stabilizer={kind s}"
+      else if kind v2 = "panic" || kind s2 = "panic" then
+        s!"fail {qsTag "exec-panic:after" n shots regLen qc} the next call on the same object panics"
+      else
+        let nonClifford := ctor s = "notAStabilizer"
+        if !nonClifford && (kind v ≠ kind s || ctor v ≠ ctor s) then
+          s!"fail {qsTag "reps-diverge" n shots regLen qc} vector={kind v} {ctor v} stabilizer={kind s} {ctor s}"
+        else "ok"
+    | _, _, _ => "fail bad-request qpair"
+  | _, _, _ => "fail bad-request qpair"
+
 def handle (line : String) : String :=
   let fs := fields line
   match fs with
+  | ["qs"] :: call :: [snap, reg, draws] =>
+    match parseQs call with
+    | some qc => qsAnswer qc snap reg draws
+    | none => "bad-qs"
+  | ("qpair" :: _) :: _ => "ok"
   | ("cover" :: _) :: rest =>
     let covered := rest.flatten
     let missing := (Q1t.Gen.resultBuilders ++ Q1t.Gen.unitBuilders).filter fun n => !covered.contains n
@@ -414,6 +556,8 @@ def specCheck (line : String) : String :=
     let fs := fields req
     match fs with
     | ("cover" :: _) :: _ => if impl = "ok" then "ok" else "fail cover"
+    | ["qs"] :: _ => "skip"
+    | ("qpair" :: sz) :: call :: rest => specQPair ("qpair" :: sz) call rest
     | sizes :: calls :: rest =>
       match parseHead sizes calls with
       | none => "fail bad-request"
